@@ -445,6 +445,46 @@ fn network_case(rng: &mut Rng, idx: u64, out: &mut Out) {
     net.set_objective(lib_obj(obj), None);
     let xin = tensor_of(cfg.input, &x);
     let tt = Tensor::single(target.clone());
+    // every fifth case checks the gradients of a network object that has already been trained
+    // for a few steps (backward -> update -> backward on the same object); the oracle then
+    // works with the parameters read back from the network
+    let pretrained = (idx / 126) % 5 == 4 && !via_learn;
+    let params = if pretrained {
+        net.set_optimizer(OptCfg::Sgd { lr: 0.01, decay: None }.build());
+        let steps = rng.range(1, 3);
+        let r = guard(|| {
+            for _ in 0..steps {
+                net.learn(&vec![&xin], &vec![&tt], None, 1, 1, None);
+            }
+        });
+        if let Err(m) = r {
+            if !m.contains("Loss is NaN") {
+                out.viol("backprop:panic:learn", format!("learn() of {} panicked: {}", cfg.describe(), short(&m, 200)), detail(&cfg, &params, &x));
+            }
+            return;
+        }
+        let p2 = read_params(&net, &cfg, &params);
+        // stay away from kinks / ties / saturation at the trained parameters as well
+        let r: RNet<f64> = RNet::plain(&cfg, &p2);
+        let tr = r.forward(&Val::from_f32(cfg.input, &x));
+        let pr = tr.output().values();
+        let finite = p2.iter().all(|p| p.flat().iter().all(|v| v.is_finite())) && pr.iter().all(|v| v.is_finite());
+        if !finite || !well_conditioned(&cfg.layers, &tr) || (obj.probabilistic() && !pr.iter().all(|p| *p > 0.02 && *p < 0.98)) || pr.iter().zip(target.iter()).any(|(p, t)| (*p - *t as f64).abs() < 0.02) {
+            out.nontrivial = false;
+            out.count("pretrained_instances_not_well_conditioned", 1);
+            return;
+        }
+        out.count("gradient_checks_on_an_already_trained_network_object", 1);
+        p2
+    } else {
+        params
+    };
+    let pred: Vec<f64> = if pretrained {
+        let r: RNet<f64> = RNet::plain(&cfg, &params);
+        r.forward(&Val::from_f32(cfg.input, &x)).output().values()
+    } else {
+        pred
+    };
     // library side: gradients of all parameters
     let lr = 0.5f32;
     let lib: Result<(Vec<((usize, usize, usize), Option<f32>)>, Vec<f32>), String> = if via_learn {
@@ -586,7 +626,7 @@ impl Monitor for C01 {
         vec![("layers", tier.pick(97_200, 1_555_200)), ("networks", tier.pick(18_900, 302_400))]
     }
     fn rule(&self) -> &'static str {
-        "layers: case i -> (kind in conv/deconv/dense/pool, activation, geometry from the covering walk over the 108 (kernel 1..3, stride 1..3, padding 0..3, dilation 1..3) tuples per axis, channels/filters 1..3, extents up to 7, repetition-free weights/inputs/upstream gradient in [-1.5,1.5]); the layer's public backward(u, x, pre) is compared entry by entry with the forward-mode dual-number derivative of <u, post(x; theta)> w.r.t. every input element and every weight/bias/kernel element (|g - d| <= 16 * de + 1e-5 * m: de = first-order bound on the deviation of a correct f32 evaluation incl. the effect of forward rounding on the derivative factors, m = the same derivative on absolute values); the input gradient must have the input's shape. networks: depth 2..5, any mix of dense/conv/deconv/pool that fits, every third with one or two feedback blocks (1..3 loops, no skips; gradients compared per unrolled copy), all seven objectives; gradients taken from the hooked Network::backward or (every third case) from the parameter change of one learn() step with plain SGD; oracle = derivative of the objective value for AE/MSE/BCE/KL and for soft-max + cross-entropy, of <objective gradient, output> for MAE/RMSE/CE. Instances within 1e-3 of a ReLU kink / pool tie or with saturated sigmoid (pre > 6) are regenerated. Distinct = distinct configuration descriptors."
+        "layers: case i -> (kind in conv/deconv/dense/pool, activation, geometry from the covering walk over the 108 (kernel 1..3, stride 1..3, padding 0..3, dilation 1..3) tuples per axis, channels/filters 1..3, extents up to 7, repetition-free weights/inputs/upstream gradient in [-1.5,1.5]); the layer's public backward(u, x, pre) is compared entry by entry with the forward-mode dual-number derivative of <u, post(x; theta)> w.r.t. every input element and every weight/bias/kernel element (|g - d| <= 16 * de + 1e-5 * m: de = first-order bound on the deviation of a correct f32 evaluation incl. the effect of forward rounding on the derivative factors, m = the same derivative on absolute values); the input gradient must have the input's shape. networks: depth 2..5, any mix of dense/conv/deconv/pool that fits, every third with one or two feedback blocks (1..3 loops, no skips; gradients compared per unrolled copy), all seven objectives; gradients taken from the hooked Network::backward, (every third case) from the parameter change of one learn() step with plain SGD, or (every fifth block of cases) from the hooked backward of a network object that has already been trained for 1..3 steps (oracle at the parameters read back from it); oracle = derivative of the objective value for AE/MSE/BCE/KL and for soft-max + cross-entropy, of <objective gradient, output> for MAE/RMSE/CE. Instances within 1e-3 of a ReLU kink / pool tie or with saturated sigmoid (pre > 6) are regenerated. Distinct = distinct configuration descriptors."
     }
     fn assumptions(&self) -> Vec<&'static str> {
         vec![
